@@ -1305,3 +1305,13 @@ func tokList(ts []cliToken) []string {
 	}
 	return l
 }
+
+// RequiredProbes: a batch in which one of these never fired explored nothing of that kind (exit 2, not a pass).
+func (c08) RequiredProbes() []string {
+	return []string{"class:MUST-FAIL", "class:MUST-SUCCEED", "class:EITHER", "outcome:success", "outcome:error"}
+}
+
+// For C09 the control is essential: without plain-flow runs that DO find the password the search could pass vacuously.
+func (c09) RequiredProbes() []string {
+	return []string{"control:plain-password-found-in-slot", "password-message-decrypted"}
+}
